@@ -12,6 +12,7 @@ CONFIG = {
     "technique": "Lean 4 proof (invariant over a transition system with data, all schedules) + scenario and e2e correspondence",
     "components": [{"name": "pipe", "timeout": {"quick": 300, "thorough": 900}},
                    {"name": "life", "corpus_only": True, "timeout": {"quick": 600, "thorough": 600}},
+                   {"name": "burst", "timeout": {"quick": 600, "thorough": 1800}},
                    {"name": "bytes", "timeout": {"quick": 600, "thorough": 2400}}],
     "rule": "pipe: scripted write/close scenarios on the real PipeData and server per-stream path; bytes: payload sizes 1..65537 (thorough: "
             "to 3 MiB) written then closed by the application (up) or the target (down), and echo, on tcp, tcp+tls, StartTLS, ws, stdio, "
